@@ -21,9 +21,7 @@ type KCase struct {
 
 func genKCase(t *rapid.T) KCase {
 	return KCase{
-		// lib/kgen emits GCN3 (gfx803) encodings; the CDNA3 ALU expects gfx942 encodings
-		// (FLAT with SADDR, renamed carry ops), so generated kernels run on the GCN3 ALU only.
-		CDNA3: false,
+		CDNA3: rapid.IntRange(0, 2).Draw(t, "cdna3") == 0,
 		Prog:  kgen.GenProgram(t, kgen.GenOpts{MaxItems: 400, MaxOps: 20, LDS: true, Partial: true}),
 	}
 }
@@ -37,6 +35,7 @@ func negInline(o kgen.Op) bool {
 // RunKCase runs one kernel case.
 func RunKCase(c KCase) (res stats.Result) {
 	p := c.Prog
+	p.GFX9 = c.CDNA3
 	comp, err := p.Compile()
 	if err != nil {
 		panic(fmt.Sprintf("harness: program does not compile: %v", err))
